@@ -914,6 +914,35 @@ func c01NoLayout(c *fw.Ctx, idx int) {
 		if cl := c01Clone(t); cl != nil {
 			expectGeom(c, "NoLayout Clone", cl, g, model.Opts{})
 		}
+		// a part with a real layout pushed onto it: refused or not, what is left is
+		// a well-formed geometry (stride = dimension of the layout), and an
+		// unchanged one if the push was refused
+		sq := []float64{0, 0, 4, 0, 4, 4, 0, 0}
+		var perr error
+		pushed := true
+		switch x := t.(type) {
+		case *geom.Polygon:
+			perr = x.Push(geom.NewLinearRingFlat(geom.XY, sq))
+		case *geom.MultiPoint:
+			perr = x.Push(geom.NewPointFlat(geom.XY, []float64{1, 2}))
+		case *geom.MultiLineString:
+			perr = x.Push(geom.NewLineStringFlat(geom.XY, sq))
+		case *geom.MultiPolygon:
+			perr = x.Push(geom.NewPolygonFlat(geom.XY, sq, []int{8}))
+		default:
+			pushed = false
+		}
+		if pushed {
+			c.Count("nolayout_push_of_an_XY_part")
+			if !wfCheck(c, "a NoLayout geometry after Push of an XY part", t) {
+				return
+			}
+			if perr != nil {
+				expectGeom(c, "NoLayout geometry after a refused Push", t, g, model.Opts{})
+			} else if t.Layout().Stride() != t.Stride() || len(t.FlatCoords()) == 0 {
+				c.Fail("ill-formed", "Push of an XY part onto a NoLayout %s succeeded and left layout %s, stride %d, %d ordinates", kind, t.Layout(), t.Stride(), len(t.FlatCoords()))
+			}
+		}
 	})
 }
 
